@@ -12,13 +12,36 @@ abbrev Mat (K : Type) (m n : Nat) := Vector (Vector K n) m
 abbrev Ten3 (K : Type) (a b c : Nat) := Vector (Vector (Vector K c) b) a
 abbrev Ten4 (K : Type) (a b c d : Nat) := Vector (Vector (Vector (Vector K d) c) b) a
 
+/-- row-major split of a flattened index `r = hi * n + lo` (NumPy `reshape`) -/
+def Fin.hi {m n : Nat} (r : Fin (m * n)) : Fin m :=
+  ⟨r.1 / n, Nat.div_lt_of_lt_mul (Nat.mul_comm m n ▸ r.2 : r.1 < n * m)⟩
+
+def Fin.lo {m n : Nat} (r : Fin (m * n)) : Fin n :=
+  ⟨r.1 % n, Nat.mod_lt _ (by
+    have := r.2
+    rcases n with _ | n
+    · simp at this
+    · omega)⟩
+
+/-- row-major flattening `(i, j) ↦ i * n + j` -/
+def Fin.flat {m n : Nat} (i : Fin m) (j : Fin n) : Fin (m * n) :=
+  ⟨i.1 * n + j.1, by
+    have hi := i.2; have hj := j.2
+    calc i.1 * n + j.1 < i.1 * n + n := by omega
+      _ = (i.1 + 1) * n := by rw [Nat.add_mul, Nat.one_mul]
+      _ ≤ m * n := Nat.mul_le_mul_right n (by omega)⟩
+
 namespace Mat
 variable {K : Type}
 
 def ofFn {m n : Nat} (f : Fin m → Fin n → K) : Mat K m n :=
   Vector.ofFn fun i => Vector.ofFn fun j => f i j
 
-@[simp] theorem ofFn_get {m n : Nat} (f : Fin m → Fin n → K) (i : Fin m) (j : Fin n) :
+@[simp] theorem ofFn_getElem {m n : Nat} (f : Fin m → Fin n → K) (i j : Nat) (hi : i < m)
+    (hj : j < n) : (ofFn f)[i][j] = f ⟨i, hi⟩ ⟨j, hj⟩ := by
+  simp [ofFn]
+
+theorem ofFn_get {m n : Nat} (f : Fin m → Fin n → K) (i : Fin m) (j : Fin n) :
     (ofFn f)[i][j] = f i j := by
   simp [ofFn]
 
